@@ -37,6 +37,7 @@ for elemType in GroupElemFactory.DICT_ELEMTYPE:
     d = {"local_coords": np.asarray(g.Get_Local_Coords(), dtype=float).tolist(), "dim": g.dim, "order": g.order, "nPe": g.nPe}
     for t in ["_N", "_dN", "_ddN", "_dddN", "_ddddN"]:
         d[t] = table_vals(getattr(g, t), pts)
+    d["N_at_nodes"] = table_vals(g._N, np.asarray(g.Get_Local_Coords(), dtype=float).tolist())
     out["lagrange"][elemType.name if hasattr(elemType, "name") else str(elemType)] = d
 
 for k in (2, 3, 4, 5):
